@@ -123,7 +123,9 @@ def judge(case) -> Outcome:
             ref = model_matrix(f, df, output="numpy", context={}, **kw, **dk())
     except Exception as e:  # noqa: BLE001
         msg = str(e)
-        if "ValueError" in msg and ("df" in msg or "knots" in msg or "bounds" in msg):
+        from .c12 import VALIDATION_PHRASES
+
+        if "ValueError" in msg and any(p in msg for p in VALIDATION_PHRASES):  # parameters a transform documents as invalid for this data
             out.decided = False
             return out
         out.fail("c05.reference_raised", f"{tag}: {type(e).__name__}: {msg[:200]}")
